@@ -110,7 +110,9 @@ def run_solver(smt_text, solver=Z3_NEW, timeout_s=60, mem_mb=8000):
         return "timeout", time.time() - t0, ""
     out = p.stdout.decode(errors="replace")
     dt = time.time() - t0
-    if "(error" in out:
+    # `(get-model)` after an `unsat` answer is the one benign error
+    errs = [l for l in out.splitlines() if "(error" in l and "model is not available" not in l]
+    if errs:
         return "error", dt, out
     first = out.strip().split("\n", 1)[0].strip() if out.strip() else ""
     if first in ("sat", "unsat", "unknown"):
